@@ -3,6 +3,11 @@ import Bng.Proof.NatMonitor
 /-
   C10 — CGNAT port blocks never overlap and are always attributable (pkg/nat/manager.go, logging.go).
 
+  Configurations: `newManager` is NewManager on Go ints (defaults, then the validation of port range and
+  block size).  `accepted_is_valid` shows that EVERY configuration the constructor accepts satisfies
+  `ValidCfg`, the hypothesis of the theorems below; `blocks_disjoint_accepted` / `block_in_range_accepted`
+  restate the two block theorems directly for all accepted configurations.
+
   Property statements only (helper lemmas: Bng/Proof/Nat.lean).  Every theorem quantifies over ALL
   configurations satisfying `ValidCfg` and ALL histories `ops : List Op` from the empty manager.  A
   history is a sequence of the code's critical sections: `addIp`, `allocPre` (the lookup of AllocateNAT
@@ -12,6 +17,24 @@ import Bng.Proof.NatMonitor
 -/
 namespace Bng.Spec.C10
 open Bng Bng.Cgnat AMap
+
+/-- Every configuration NewManager accepts (any Go ints for ports-per-subscriber, range start and range end
+    that pass its defaults and validation) is a configuration the theorems cover. -/
+theorem accepted_is_valid (pps rs re : Int) (logOn bulk : Bool) (c : Cfg)
+    (h : newManager pps rs re logOn bulk = some c) : ValidCfg c :=
+  newManager_valid h
+
+/-- …and the constructor rejects exactly the port ranges and block sizes that do not fit 16-bit ports. -/
+theorem rejected_iff (pps rs re : Int) (logOn bulk : Bool) :
+    newManager pps rs re logOn bulk = none ↔
+      ((if rs = 0 then 1024 else rs) < 1 ∨ (if re = 0 then 65535 else re) > 65535 ∨
+       (if pps = 0 then 1024 else pps) < 1 ∨ (if pps = 0 then 1024 else pps) > 65535) := by
+  unfold newManager
+  simp only
+  generalize (if pps = 0 then (1024 : Int) else pps) = p
+  generalize (if rs = 0 then (1024 : Int) else rs) = r
+  generalize (if re = 0 then (65535 : Int) else re) = e
+  by_cases h1 : r < 1 ∨ e > 65535 <;> by_cases h2 : p < 1 ∨ p > 65535 <;> simp [h1, h2] <;> omega
 
 /-- No overlap: after any history, two different subscribers that hold blocks on the same public
     address hold disjoint port ranges. -/
@@ -39,11 +62,28 @@ theorem block_in_range (c : Cfg) (hv : ValidCfg c) (ops : List Op) (k : Nat) (a 
   have w := hI.wf _ (mem_of_lookup h)
   have e1 : a.portStart.toNat = s.cfg.rangeStart + a.slot * s.cfg.pps := (WF.hi_eq hv w).1
   have e2 : a.portEnd.toNat = s.cfg.rangeStart + a.slot * s.cfg.pps + s.cfg.pps - 1 := (WF.hi_eq hv w).2
-  have hle : s.cfg.rangeStart + (a.slot + 1) * s.cfg.pps ≤ s.cfg.rangeEnd + 1 := slot_end_le s.cfg hv.1 w.slot
+  have hle : s.cfg.rangeStart + (a.slot + 1) * s.cfg.pps ≤ s.cfg.rangeEnd + 1 := slot_end_le s.cfg hv w.slot
   have em : (a.slot + 1) * s.cfg.pps = a.slot * s.cfg.pps + s.cfg.pps := by rw [Nat.add_mul, Nat.one_mul]
   have := hv.1
   generalize a.slot * s.cfg.pps = x at *
   omega
+
+/-- No overlap, for every configuration the constructor accepts. -/
+theorem blocks_disjoint_accepted (pps rs re : Int) (logOn bulk : Bool) (c : Cfg)
+    (hc : newManager pps rs re logOn bulk = some c) (ops : List Op) (k₁ k₂ : Nat) (a₁ a₂ : Alloc)
+    (h₁ : AMap.lookup (run (init c) ops).allocs k₁ = some a₁)
+    (h₂ : AMap.lookup (run (init c) ops).allocs k₂ = some a₂)
+    (hk : k₁ ≠ k₂) (hpub : a₁.pub = a₂.pub) :
+    a₁.portEnd.toNat < a₂.portStart.toNat ∨ a₂.portEnd.toNat < a₁.portStart.toNat :=
+  blocks_disjoint c (newManager_valid hc) ops k₁ k₂ a₁ a₂ h₁ h₂ hk hpub
+
+/-- In range with the configured size and no uint16 wrap, for every configuration the constructor accepts. -/
+theorem block_in_range_accepted (pps rs re : Int) (logOn bulk : Bool) (c : Cfg)
+    (hc : newManager pps rs re logOn bulk = some c) (ops : List Op) (k : Nat) (a : Alloc)
+    (h : AMap.lookup (run (init c) ops).allocs k = some a) :
+    c.rangeStart ≤ a.portStart.toNat ∧ a.portStart.toNat ≤ a.portEnd.toNat ∧
+    a.portEnd.toNat ≤ c.rangeEnd ∧ a.portEnd.toNat - a.portStart.toNat + 1 = c.pps :=
+  block_in_range c (newManager_valid hc) ops k a h
 
 /-- Stable until released: in ANY state, an operation other than the subscriber's own `dealloc` leaves
     the subscriber's block exactly as it was (in particular a second, concurrent `allocCommit` for the
@@ -130,9 +170,14 @@ theorem ledger_silent_on_model (c : Cfg) (hv : ValidCfg c) (ops : List Op) :
   ledgerRun_silent (s := init c) hv (inv_init c) (li_init c) ops
 
 /-! non-vacuity -/
-example : ValidCfg (mkCfg 0 0 0 true true) := by unfold ValidCfg mkCfg; decide
-example : ValidCfg (mkCfg 1000 10000 12500 true false) := by unfold ValidCfg mkCfg; decide
-example : ValidCfg (mkCfg 2 65530 65535 true true) := by unfold ValidCfg mkCfg; decide
+example : ValidCfg (mkCfg 0 0 0 true true) := mkCfg_valid _ _ _ _ _ (by decide)
+example : ValidCfg (mkCfg 1000 10000 12500 true false) := mkCfg_valid _ _ _ _ _ (by decide)
+example : ValidCfg (mkCfg 2 65530 65535 true true) := mkCfg_valid _ _ _ _ _ (by decide)
+example : newManager 0 0 0 true true = some (mkCfg 0 0 0 true true) := by decide
+example : newManager 1024 1024 70000 true true = none := by decide
+example : newManager 1024 (-1000) 65535 true false = none := by decide
+example : newManager 70000 1 65535 true true = none := by decide
+example : (newManager 10 5 (-3) false false).isSome = true := by decide
 /-- release from the middle, then allocate: the new subscriber gets the freed block, not a live one -/
 example : (getAllocation (run (init (mkCfg 1024 1024 65535 true true))
     [.addIp 1, .alloc 1, .alloc 2, .alloc 3, .dealloc 2, .alloc 4]) 4) =
